@@ -203,7 +203,14 @@ func (s *source) FetchAll(ctx context.Context) ([]*model.ProviderInfo, error) {
 		time.Sleep(d)
 		s.holds.add(a, time.Now())
 	}
-	t := s.clock.Add(1)
+	// every call allocates fresh records (as a decoding HTTP source does); the ingest
+	// status (Lag, Inactive, LastError, LastErrorTime) differs on every call, the
+	// advertisement time only advances on every third one
+	call := s.callsAll.Load()
+	t := s.clock.Load()
+	if (call-1)%3 == 0 {
+		t = s.clock.Add(1)
+	}
 	n := int(s.n.Load())
 	out := make([]*model.ProviderInfo, 0, n)
 	for p := 1; p <= n; p++ {
@@ -211,7 +218,7 @@ func (s *source) FetchAll(ctx context.Context) ([]*model.ProviderInfo, error) {
 		if s.churn.Load() && (int64(p)+t)%3 != 0 {
 			tp = 1 // an old time: the cache keeps what it has for this provider
 		}
-		out = append(out, s.info(p, tp))
+		out = append(out, withStatus(s.info(p, tp), call))
 	}
 	return out, nil
 }
@@ -225,12 +232,44 @@ func (s *source) Fetch(ctx context.Context, pid peer.ID) (*model.ProviderInfo, e
 	}
 	p := pcdrv.PeerIndex(pid)
 	if p >= 1 && p <= int(s.n.Load()) {
-		return s.info(p, s.clock.Load()), nil
+		return withStatus(s.info(p, s.clock.Load()), 1000000+s.callsOne.Load()), nil
 	}
 	return nil, nil
 }
 
 func (s *source) String() string { return fmt.Sprintf("held-%d", s.idx) }
+
+// withStatus fills the ingest-status fields, which say nothing about the advertisement chain
+func withStatus(pi *model.ProviderInfo, call int64) *model.ProviderInfo {
+	pi.Lag = int(call)
+	pi.Inactive = call%2 == 1
+	pi.LastError = fmt.Sprintf("error of call %d", call)
+	pi.LastErrorTime = time.Unix(timeBase+call, 0).UTC().Format(time.RFC3339)
+	return pi
+}
+
+func statusOf(pi *model.ProviderInfo) string {
+	return fmt.Sprintf("lag=%d inactive=%v err=%q at=%s", pi.Lag, pi.Inactive, pi.LastError, pi.LastErrorTime)
+}
+
+// versions remembers, for every record version (source, provider, time) any reader was ever
+// handed, the status it carried: a version is one immutable object, so it never differs.
+type versions struct{ m sync.Map }
+
+func (v *versions) check(pi *model.ProviderInfo) string {
+	src, slot, t := untag(pcdrv.AddrTag(pi.AddrInfo.Addrs))
+	key := [3]int64{int64(src), int64(slot), t}
+	st := statusOf(pi)
+	if old, loaded := v.m.LoadOrStore(key, st); loaded && old.(string) != st {
+		return fmt.Sprintf("the record of provider %d, source %d, advertisement time %d was handed out with status {%s} and later with {%s}", slot, src, t, old, st)
+	}
+	return ""
+}
+
+type heldRec struct {
+	pi  *model.ProviderInfo
+	sig string
+}
 
 // ---------------------------------------------------------------------------
 
@@ -353,6 +392,7 @@ func runScenario(c cfg, rng *vlib.Rand) Scenario {
 	}
 
 	readers := make([]Reader, c.nreaders)
+	vers := &versions{}
 	stamps := make([][]time.Time, c.nreaders) // completion time of every read
 	for r := 0; r < c.nreaders; r++ {
 		r := r
@@ -384,11 +424,37 @@ func runScenario(c cfg, rng *vlib.Rand) Scenario {
 				}
 				last[pid] = t
 			}
+			var held []heldRec
+			keep := func(pi *model.ProviderInfo) {
+				if msg := vers.check(pi); msg != "" {
+					rd.Changed++
+					if rd.FirstChanged == "" {
+						rd.FirstChanged = msg
+					}
+				}
+				h := heldRec{pi, statusOf(pi) + " t=" + pi.LastAdvertisementTime}
+				if len(held) < 64 {
+					held = append(held, h)
+				} else {
+					held[lr.Intn(64)] = h
+				}
+			}
 			for {
 				select {
 				case <-stop:
 					return
 				default:
+				}
+				// a record once handed to a caller never changes
+				if len(held) > 0 {
+					h := held[lr.Intn(len(held))]
+					rd.HeldChecks++
+					if now := statusOf(h.pi) + " t=" + h.pi.LastAdvertisementTime; now != h.sig {
+						rd.Changed++
+						if rd.FirstChanged == "" {
+							rd.FirstChanged = fmt.Sprintf("a record this reader was handed earlier changed underneath it: {%s} became {%s}", h.sig, now)
+						}
+					}
 				}
 				pid := 1 + lr.Intn(c.nprov)
 				switch lr.Intn(10) {
@@ -399,6 +465,9 @@ func runScenario(c cfg, rng *vlib.Rand) Scenario {
 					seen := map[int]int64{}
 					for _, pi := range l {
 						seen[pcdrv.PeerIndex(pi.AddrInfo.ID)] = timeOf(pi)
+						if p := pcdrv.PeerIndex(pi.AddrInfo.ID); p >= 1 && p <= c.nprov {
+							keep(pi)
+						}
 					}
 					for p := 1; p <= c.nprov; p++ {
 						if t, ok := seen[p]; ok {
@@ -444,6 +513,7 @@ func runScenario(c cfg, rng *vlib.Rand) Scenario {
 						note(pid, -1, "Get")
 					} else {
 						note(pid, timeOf(pi), "Get")
+						keep(pi)
 					}
 				}
 				rd.Reads++
@@ -517,6 +587,12 @@ func runScenario(c cfg, rng *vlib.Rand) Scenario {
 		}
 	}
 	for r := range readers {
+		if readers[r].Changed > 0 {
+			sc.Failures = append(sc.Failures, fmt.Sprintf("record-changed: reader %d: %s (%d times)", r, readers[r].FirstChanged, readers[r].Changed))
+			break
+		}
+	}
+	for r := range readers {
 		if readers[r].BadExpansions > 0 {
 			sc.Failures = append(sc.Failures, fmt.Sprintf("expansion: reader %d: %s (%d of %d GetResults answers differ from the reference expansion of the record version they name)", r, readers[r].FirstBadExpansion, readers[r].BadExpansions, readers[r].Expansions))
 			break
@@ -557,18 +633,25 @@ type dsrc struct {
 	mu      sync.Mutex
 	listed  map[int]int64 // what FetchAll reports: provider -> advertisement time
 	known   map[int]int64 // what only Fetch knows (not listed yet)
+	lag     map[int]int   // ingest status reported for a provider (0: healthy)
 	gateAll chan struct{} // one-shot: the next FetchAll waits for it
 	gateOne chan struct{} // one-shot: the next Fetch waits for it
 	entered chan struct{}
 }
 
 func newDsrc() *dsrc {
-	return &dsrc{listed: map[int]int64{}, known: map[int]int64{}, entered: make(chan struct{}, 16)}
+	return &dsrc{listed: map[int]int64{}, known: map[int]int64{}, lag: map[int]int{}, entered: make(chan struct{}, 16)}
 }
 
-func dinfo(pid int, t int64) *model.ProviderInfo {
-	return &model.ProviderInfo{AddrInfo: pcdrv.AddrInfo(pid, pid),
+// dinfo allocates a fresh record on every call
+func dinfo(pid int, t int64, lag int) *model.ProviderInfo {
+	pi := &model.ProviderInfo{AddrInfo: pcdrv.AddrInfo(pid, pid),
 		LastAdvertisementTime: time.Unix(timeBase+t, 0).UTC().Format(time.RFC3339)}
+	if lag != 0 {
+		pi.Lag, pi.Inactive, pi.LastError = lag, true, fmt.Sprintf("sync failed (lag %d)", lag)
+		pi.LastErrorTime = time.Unix(timeBase+int64(lag), 0).UTC().Format(time.RFC3339)
+	}
+	return pi
 }
 
 func waitGate(g chan struct{}) {
@@ -587,11 +670,14 @@ func (s *dsrc) FetchAll(ctx context.Context) ([]*model.ProviderInfo, error) {
 		s.entered <- struct{}{}
 		waitGate(g)
 	}
+	if ctx.Err() != nil {
+		return nil, ctx.Err() // the caller gave up while the call was open
+	}
 	s.mu.Lock()
 	defer s.mu.Unlock()
 	var out []*model.ProviderInfo
 	for p, t := range s.listed {
-		out = append(out, dinfo(p, t))
+		out = append(out, dinfo(p, t, s.lag[p]))
 	}
 	return out, nil
 }
@@ -609,10 +695,10 @@ func (s *dsrc) Fetch(ctx context.Context, pid peer.ID) (*model.ProviderInfo, err
 	defer s.mu.Unlock()
 	p := pcdrv.PeerIndex(pid)
 	if t, ok := s.listed[p]; ok {
-		return dinfo(p, t), nil
+		return dinfo(p, t, s.lag[p]), nil
 	}
 	if t, ok := s.known[p]; ok {
-		return dinfo(p, t), nil
+		return dinfo(p, t, s.lag[p]), nil
 	}
 	return nil, nil
 }
@@ -825,6 +911,65 @@ func directedNoRollback(name string, missFirst bool) Directed {
 	return d
 }
 
+// (c) a record that has been published, and handed to callers, is never written again:
+// a refresh is parked in its second source after the first one answered with a CHANGED
+// ingest status and an UNCHANGED advertisement time (a freshly allocated record, as a
+// decoding source delivers it); nothing of that answer may be visible before the refresh
+// publishes, nor after it was cancelled, and the record a caller already holds stays as
+// it was
+func directedRecordNeverChanges(name string) Directed {
+	d := Directed{Name: name}
+	s0, s1 := newDsrc(), newDsrc()
+	s0.listed[dP] = 1
+	pc, err := pcache.New(pcache.WithSource(s0, s1), pcache.WithTTL(time.Hour), pcache.WithRefreshInterval(0))
+	if err != nil {
+		panic(err)
+	}
+	held, _ := pc.Get(context.Background(), pcdrv.Peer(dP))
+	if held == nil {
+		d.Failures = append(d.Failures, "setup: the provider was not cached by the preload")
+		return d
+	}
+	before := statusOf(held)
+	s0.mu.Lock()
+	s0.lag[dP] = 7 // the status changes, the advertisement time does not
+	s0.mu.Unlock()
+	g := s1.gate(true)
+	ctx, cancel := context.WithCancel(context.Background())
+	done := make(chan error, 1)
+	go func() { done <- pc.Refresh(ctx) }()
+	if !s1.waitEntered(2 * time.Second) {
+		d.Failures = append(d.Failures, "setup: the refresh never reached its second source")
+	}
+	look := func(when, class string) {
+		pi, _ := pc.Get(context.Background(), pcdrv.Peer(dP))
+		if pi == nil {
+			d.Failures = append(d.Failures, "cached-provider-missing: Get "+when+" returned no record")
+			return
+		}
+		if st := statusOf(pi); st != before {
+			d.Failures = append(d.Failures, fmt.Sprintf("%s: Get %s returns status {%s}; the last completed update published {%s}", class, when, st, before))
+		}
+		if st := statusOf(held); st != before {
+			d.Failures = append(d.Failures, fmt.Sprintf("held-record-changed: the record the caller was handed before the refresh started changed underneath it %s: {%s} became {%s}", when, before, st))
+		}
+	}
+	look("while the refresh is parked in its second source", "unpublished-data-visible")
+	cancel()
+	close(g)
+	select {
+	case e := <-done:
+		if e == nil {
+			d.Notes = append(d.Notes, "the cancelled refresh returned nil")
+		}
+	case <-time.After(3 * time.Second):
+		d.Failures = append(d.Failures, "hung: the cancelled refresh did not return")
+		return d
+	}
+	look("after the refresh was cancelled", "data-of-cancelled-refresh-visible")
+	return d
+}
+
 func runDirected(only string) []Directed {
 	var out []Directed
 	add := func(name string, f func() Directed) {
@@ -838,6 +983,9 @@ func runDirected(only string) []Directed {
 	add("reader/miss-fetch-held", func() Directed { return directedReaderLatency("reader/miss-fetch-held", false, true) })
 	add("reader/interval-elapsed-and-miss-fetch-held", func() Directed {
 		return directedReaderLatency("reader/interval-elapsed-and-miss-fetch-held", true, true)
+	})
+	add("records/status-change-with-unchanged-time", func() Directed {
+		return directedRecordNeverChanges("records/status-change-with-unchanged-time")
 	})
 	for k := 0; k < 3; k++ {
 		add("writers/refresh-held-misses-queue", func() Directed { return directedNoRollback("writers/refresh-held-misses-queue", false) })
